@@ -533,7 +533,7 @@ def run(ctx):
              "re X %s %s" % (hx(print_re(WITNESS[3][1])), hx([0x62, 0x62])),
              "re X %s %s" % (hx([46]), hx([0x2028]))]
     _, pw, _ = run_bin(xh, probe, 60)
-    swbits = "".join(["1" if pw[0].endswith("000001000009") else "0", "1" if pw[1] == "ok 1" else "0",
+    swbits = "".join(["1" if pw[0].endswith("000009") else "0", "1" if pw[1] == "ok 1" else "0",
                       "1" if pw[2] == "ok 1" else "0"]) if len(pw) == 3 else "000"
     ctx.coverage["repairs_present"] = {"F26_addRange": swbits[0], "F27_overlap": swbits[1], "F29_dot": swbits[2]}
 
